@@ -31,6 +31,12 @@ def Params.set (ps : Params) (k : String) (v : PVal) : Params :=
 def Params.get (ps : Params) (k : String) : Option PVal :=
   (ps.find? (fun kv => kv.1 == k)).map (·.2)
 
+/-- the value of a string-valued parameter -/
+def Params.getStr (ps : Params) (k : String) : Option String :=
+  match ps.get k with
+  | some (.str s) => some s
+  | _ => none
+
 /-- one `self._request('get', path, params=params)` -/
 structure Request where
   path : String
@@ -245,9 +251,7 @@ def pageCount (n p : Nat) : Nat := (n + p - 1) / p
     `{page, page_count, items}`; a page outside 1..max 1 page_count, or a page size ≤ 0, is an error. -/
 def goodServer {α} (sel : Option String → Option String → α → Bool) (xs : List α) : Server α :=
   fun _ rq =>
-    let nm := match rq.params.get "name" with | some (.str s) => some s | _ => none
-    let rx := match rq.params.get "use_regex" with | some (.str s) => some s | _ => none
-    let ys := xs.filter (sel nm rx)
+    let ys := xs.filter (sel (rq.params.getStr "name") (rq.params.getStr "use_regex"))
     match rq.params.get "page", rq.params.get "page_size" with
     | none, none => .listing ys
     | some (.int k), some (.int p) =>
